@@ -1,4 +1,5 @@
 """positive control: each expected-zero rule must fire on this file"""
+import functools
 import random
 import os
 from typing import Set, Tuple, Dict
@@ -18,3 +19,11 @@ class SCFG:
 
     def bad_entropy(self) -> str:
         return str(random.random()) + os.environ.get("X", "") + str(id(self))
+
+    @functools.lru_cache(maxsize=16)
+    def bad_memo(self, key: str) -> Dict[str, BasicBlock]:
+        return dict(self.graph)
+
+    def bad_default(self, acc: Dict[str, BasicBlock] = {}) -> Dict[str, BasicBlock]:
+        acc.update(self.graph)
+        return acc
